@@ -99,6 +99,10 @@ def run(case):
                     seen.add(json.dumps(sig))
                     viol.append(dict(sig=sig, expected="digest %s with empty history" % base, observed="digest %s after %s" % (g, list(hist)), case=dict(seed=case["seed"], path=list(hist) + [op])))
     probes = out["probes"]
+    raised = sorted({r["op"] for r in recs if r.get("raised") and not r["history"]})
+    for op in raised:
+        # an operation that only ever raises observes nothing: that is a defect of this harness, reported like a violation so that it cannot go unnoticed
+        viol.append(dict(sig=dict(check="harness_vacuous_operation", op=op), expected="the operation produces output", observed="raises on the unchanged input", case=dict(seed=case["seed"], path=[op])))
     return dict(
         outcome="ok" if not viol else "differs",
         transitions=len(recs),
